@@ -86,8 +86,13 @@ package config
 //@   maprange 2 unordered-result names
 
 //@ func getPackages
-//@   props C09
+//@   props C09 C15
 //@   maprange 3 unordered-result pkgs
+// C15: for EVERY converter the packages named by its own lines and by the global lines are loaded (the existing
+// package at the output location decides the package clause), the default ./generated location included
+//@   loop@C15 1 invariant idx > 0 ==> reached("registerConverterLines#1") && reached("registerConverterLines#2")
+//@   at@C15 call registerConverterLines#1 assert arg1 == raw.WorkDir && arg2 == c.FileName && arg3 == c.PackagePath && same(arg4, c.Converter)
+//@   at@C15 call registerConverterLines#2 assert arg1 == raw.WorkDir && arg2 == c.FileName && arg3 == c.PackagePath && same(arg4, raw.Global)
 
 // registerMethodLines only inserts package paths that are a function of its arguments (it never reads or
 // deletes from lookup). Stated with a ghost set; ASSUMED (trusted), listed in the evidence.
@@ -117,6 +122,7 @@ package config
 //@     || cmd == "output:format" || cmd == "output:package" || cmd == "struct:comment" || cmd == "enum:exclude" || cmd == "extend"
 //@ func parseConverterLine
 //@   props C15 C12 C14
+//@   propagates
 //@   at@C15 return assert cmd == parse.CmdName(value) && rest == parse.CmdRest(value)
 //@   at@C15 return assert cmd == "output:package" && err == nil && !strings.Contains(parse.StringValue(rest), ":") ==> c.OutputPackagePath == parse.StringValue(rest) && c.OutputPackageName == ""
 //@   at@C15 return assert cmd == "output:package" && err == nil && strings.Contains(parse.StringValue(rest), ":") ==> c.OutputPackagePath + ":" + c.OutputPackageName == parse.StringValue(rest) && !strings.Contains(c.OutputPackagePath, ":")
@@ -181,7 +187,7 @@ package config
 //@ func parseMethod
 //@   props C12 C14
 //@   at@C12 call parseMethodLine#1 assert arg1 == c && arg2 == m && arg3 == rawMethod.Lines[idx]
-//@   at@C14 call method.Parse#1 assert arg0 == obj && arg1.UpdateParam == m.updateParam && arg1.ContextMatch == m.ArgContextRegex && same(arg2, m.localOpts)
+//@   at@C14,C12 call method.Parse#1 assert arg0 == obj && arg1.UpdateParam == m.updateParam && arg1.ContextMatch == m.ArgContextRegex && same(arg2, m.localOpts)
 //@           && arg1.Params == method.ParamsRequired && !arg1.AllowTypeParams && arg1.Converter == nil && arg1.OutputPackagePath == c.OutputPackagePath
 //@   loop@C12 1 invariant idx == 0 ==> same(m.Common, old(c.Common))
 //@   loop@C12 1 invariant same(c.Common, old(c.Common))
@@ -189,27 +195,35 @@ package config
 //@   ensures@C12 same(c.Common, old(c.Common))
 
 //@ func parseMethodLine
-//@   props C12 C14
+//@   props C12 C14 C08 C10 C05 C06
+//@   propagates
+// C08: every enum:map line is recorded (identical names included: it pins the member against transformers)
+//@   at@C08 return assert cmd == "enum:map" && err == nil ==> len(strings.Fields(rest)) == 2 && has(m.EnumMapping.Map, strings.Fields(rest)[0]) && m.EnumMapping.Map[strings.Fields(rest)[0]] == strings.Fields(rest)[1]
+// C05/C10: a mapping line never replaces the entry of a field (an earlier `ignore` of the same field stays in force)
+//@   at@C10,C05 return assert forall k string :: old(has(m.Fields, k)) ==> has(m.Fields, k) && m.Fields[k] == old(m.Fields[k])
 //@   at@C12 return assert !MethodKey(cmd) && !KnownCommonKey(cmd) ==> err != nil
 //@   at@C12 call parseCommon#1 assert arg1 == cmd && arg2 == rest && !MethodKey(cmd)
 //@   at@C12 return assert same(c.Common, old(c.Common))
 //@   at@C12 return assert MethodKey(cmd) ==> same(m.Common, old(m.Common))
 //@   at@C14 return assert cmd == "context" && err == nil ==> has(m.localOpts.Context, parse.StringValue(rest))
 // per-use parse options of map|FUNC and default FUNC: optional source, generics allowed, the METHOD's context regex
-//@   at@C14 call ctx.Loader.GetOne#* assert arg2 != nil && arg2.Params == method.ParamsOptional && arg2.AllowTypeParams && arg2.ContextMatch == m.ArgContextRegex
+//@   at@C14,C06 call ctx.Loader.GetOne#* assert arg2 != nil && arg2.Params == method.ParamsOptional && arg2.AllowTypeParams && arg2.ContextMatch == m.ArgContextRegex
 //@           && arg2.OutputPackagePath == c.OutputPackagePath && arg0 == c.Package
 //@   at@C14 return assert cmd == "update" && err == nil ==> m.updateParam == parse.StringValue(rest)
 //@   at@C14 return assert cmd != "update" ==> m.updateParam == old(m.updateParam)
 //@   at@C14 return assert cmd != "context" ==> forall k string :: has(m.localOpts.Context, k) == old(has(m.localOpts.Context, k))
 //@   loop@C14 1 invariant forall k string :: has(m.localOpts.Context, k) == old(has(m.localOpts.Context, k))
+//@   loop@C10,C05 1 invariant forall k string :: old(has(m.Fields, k)) ==> has(m.Fields, k) && m.Fields[k] == old(m.Fields[k])
 
 //@ func formatLineError
 //@   props C12
 //@   ensures result != nil
 
 //@ func Method.Field
-//@   props C05 C12
+//@   props C05 C12 C10
 //@   assigns map(m.Fields)
+//@   ensures has(m.Fields, targetName) && result == m.Fields[targetName]
+//@   ensures forall k string :: old(has(m.Fields, k)) ==> has(m.Fields, k) && m.Fields[k] == old(m.Fields[k])
 
 // C15: the package of an output file is the directory of that file, taken relative to the declaring file's
 // package path (an absolute output path is first made relative to the directory of the declaring file)
